@@ -13,7 +13,8 @@ Inductive oobs := ObOk | ObErr (e : err) (trace : list N) | ObPanic.
 Record obs := mkObs {
   ob_out : oobs;
   ob_globals : list (list N * option tval);    (* read_var_by_name for every variable name of the program *)
-  ob_log : list (list tval)                    (* the host log after the run *)
+  ob_log : list (list tval);                   (* the host log after the run *)
+  ob_shape : option (list N)                   (* [value-stack height; call depth; #objects; #globals] (verif-hooks) *)
 }.
 
 Inductive vmcase :=
@@ -70,6 +71,38 @@ Definition globals_match (P : program) (s : state) (g : list (list N * option tv
 Definition log_matches (s : state) (l : list (list tval)) : bool :=
   list_eqb (list_eqb tval_eqb) (st_log s) l.
 
+Definition shape_of (s : state) : list N :=
+  [N.of_nat (Stacks.vcount (st_stack s)); N.of_nat (length (st_calls s));
+   N.of_nat (length (st_heap s)); N.of_nat (length (st_globals s))].
+Definition shape_matches (s : state) (o : option (list N)) : bool :=
+  match o with Some l => list_eqb N.eqb (shape_of s) l | None => true end.
+
+(* The flat semantics (loop_flat, no re-entry) agrees with the real loop whenever no native re-entered:
+   code 5 otherwise. This ties the subject of budget_monotone to the validated model. *)
+Definition abort_eqb (a b : abort) : bool :=
+  match a, b with
+  | APanic, APanic | AUB, AUB | ACrash, ACrash | ADiverge, ADiverge | AUnmodelled, AUnmodelled => true
+  | _, _ => false
+  end.
+Definition outcome_eqb (a b : outcome) : bool :=
+  match a, b with
+  | OOk, OOk => true
+  | OErr e t, OErr e' t' => err_eqb e e' && list_eqb N.eqb t t'
+  | OAbort x, OAbort y => abort_eqb x y
+  | _, _ => false
+  end.
+Definition flat_agrees (debug : bool) (budget : nat) (P : program) (s0 : state) (m : outcome) (s1 : state) : bool :=
+  let '(mf, sf) := run_flat flocq_ops (bld_of debug) budget P s0 in
+  match mf with
+  | OAbort AUnmodelled => true
+  | _ =>
+      outcome_eqb mf m && list_eqb N.eqb (shape_of sf) (shape_of s1) &&
+      list_eqb (list_eqb tval_eqb) (st_log sf) (st_log s1) &&
+      list_eqb tval_eqb (map (tree_of flocq_ops (st_heap sf)) (st_globals sf))
+                        (map (tree_of flocq_ops (st_heap s1)) (st_globals s1)) &&
+      N.eqb (st_count sf) (st_count s1)
+  end.
+
 (* codes of a sequence of runs; [s] = state the next run starts from when the VM is reused *)
 Fixpoint check_runs (debug fresh : bool) (P : program) (s : state) (runs : list (N * obs)) : list N :=
   match runs with
@@ -77,6 +110,7 @@ Fixpoint check_runs (debug fresh : bool) (P : program) (s : state) (runs : list 
   | (budget, o) :: rest =>
       let s0 := if fresh then fresh_state else s in
       let '(m, s1) := run flocq_ops (bld_of debug) (N.to_nat budget) P s0 in
+      (if flat_agrees debug (N.to_nat budget) P s0 m s1 then [] else [5]) ++
       match outcome_matches m (ob_out o) with
       | None => [3]
       | Some false => [1]
@@ -86,6 +120,7 @@ Fixpoint check_runs (debug fresh : bool) (P : program) (s : state) (runs : list 
           | _ =>
               (if globals_match P s1 (ob_globals o) then [] else [1]) ++
               (if log_matches s1 (ob_log o) then [] else [1]) ++
+              (if shape_matches s1 (ob_shape o) then [] else [1]) ++
               check_runs debug fresh P s1 rest
           end
       end
